@@ -55,6 +55,9 @@ def compare(stack, tuples=()):
     if ref['dependency_error']:
         if obs.get('dir_err') != 'DependencyError':
             diffs.append(('dir', obs.get('dir', obs.get('dir_err')), 'DependencyError ' + json.dumps(ref['dependency_error'])))
+        elif obs.get('dir_second') != 'ERR DependencyError' or obs.get('compiled_after_error'):
+            diffs.append(('second-access', {'dir': obs.get('dir_second'), 'compiled': obs.get('compiled_after_error')},
+                          'DependencyError again: the pipeline is unusable'))
         else:
             # the message names the field and the missing inputs (C18)
             msg = obs.get('dir_err_msg', '')
